@@ -825,7 +825,7 @@ func TestC18(t *testing.T) {
 		note(s, r)
 		vcore.Report(t, classify(s, r), s)
 	}
-	vcore.Check(t, vcore.N(6, 18), func(rt *rapid.T) {
+	vcore.Check(t, vcore.N(6, 24), func(rt *rapid.T) {
 		s := gen(rt)
 		r := child(s)
 		account(s, r)
